@@ -394,7 +394,11 @@ fn stimulus_bfs(depth: usize) -> (u64, u64, Bad) {
         }
     }
     let total = ev.len().pow(depth as u32);
-    let res = mc::par_ranges(total * starts.len(), 2048, |rg| {
+    // only cloned inside the workers
+    let starts = mc::Shared(starts);
+    let starts = &starts;
+    let res = mc::par_ranges(total * starts.get().len(), 2048, |rg| {
+        let starts = starts.get();
         let mut bad = Bad::new();
         let mut trans = 0u64;
         let mut digests = std::collections::HashSet::new();
@@ -600,6 +604,8 @@ pub fn run() {
     if let Some(f) = ctx.replay_file.clone() {
         let text = std::fs::read_to_string(&f).expect("replay file");
         let l = text.lines().next().unwrap_or("");
+        // replays run with the subject's log lines evaluated (a superset of what the families do)
+        log::set_max_level(log::LevelFilter::Trace);
         if l.starts_with("head ") {
             let kv = mc::kv(l);
             let head = mc::unhex(&kv["bytes"].replace(',', " "));
@@ -692,6 +698,26 @@ pub fn run() {
     // (d)
     let (pruns, pedges, pdig, bd) = phase_sweep(quick);
     merge(&mut bad, bd);
+    // (e) the same calls with every log line of the subject evaluated and formatted (what happens under
+    // `2a-emulator -vvvv`): the address x value family in full, every 2-byte head with a coarser grid of
+    // settings, the stimulus sequences one level shallower
+    let (lruns, lb) = crate::with_trace_logging(|| {
+        let mut b = Bad::new();
+        let (n1, b1) = addresses();
+        merge(&mut b, b1);
+        let (r, _e, _ends, b2) = heads(2, &SIZES[1..2], &limits_all[..1], 120, 0);
+        merge(&mut b, b2);
+        let (r1, _e, _ends, b3) = heads(2, &SIZES[0..1], &limits_all[1..2], 60, 1);
+        merge(&mut b, b3);
+        let (t, _s, b4) = stimulus_bfs(2);
+        merge(&mut b, b4);
+        (n1 + r + r1 + t, b)
+    });
+    // report them under keys of their own
+    for (k, v) in lb {
+        bad.insert(format!("{}/with-logging", k), v);
+    }
+    ctx.set("runs_with_trace_logging", lruns);
     for (k, (n, cases)) in &bad {
         for (l, w) in cases.iter().take(3) {
             ctx.violation(k.clone(), format!("{} ({} cases in class)", w, n), l.clone());
